@@ -171,6 +171,7 @@ func libCreate(g *FuncGen, c *ast.CallExpr, callee *types.Func, st *State) []Val
 	nfs := g.fresh("fs", "FS")
 	g.assume(st, fmt.Sprintf("(ite (= %s 0) (and (= %s (fsWrite %s %s bempty)) (= (fpath %s) %s) (not (isDir %s %s))) (and (= %s %s) (= %s 0)))", err.T, nfs, fs, p.T, f.T, p.T, fs, p.T, nfs, fs, f.T))
 	g.ghostSet(st, "$fs", nfs)
+	g.ioFailed(st, err.T)
 	return res
 }
 
@@ -190,6 +191,7 @@ func libOpenFile(g *FuncGen, c *ast.CallExpr, callee *types.Func, st *State) []V
 	g.assume(st, fmt.Sprintf("(ite (= %s 0) (and (= %s (ite (isFile %s %s) %s (fsWrite %s %s bempty))) (= (fpath %s) %s) (not (isDir %s %s))) (and (= %s %s) (= %s 0)))",
 		err.T, nfs, fs, p.T, fs, fs, p.T, f.T, p.T, fs, p.T, nfs, fs, f.T))
 	g.ghostSet(st, "$fs", nfs)
+	g.ioFailed(st, err.T)
 	return res
 }
 
@@ -222,6 +224,7 @@ func libFileWrite(g *FuncGen, c *ast.CallExpr, callee *types.Func, st *State) []
 	g.assume(st, fmt.Sprintf("(ite (= %s 0) (and (= %s (fsWrite %s (fpath %s) (bcat (content %s (fpath %s)) %s))) (= %s (blen %s))) (= %s (fsWrite %s (fpath %s) %s)))",
 		err.T, nfs, fs, f.T, fs, f.T, data.T, n.T, data.T, nfs, fs, f.T, junk))
 	g.ghostSet(st, "$fs", nfs)
+	g.ioFailed(st, err.T)
 	return res
 }
 
@@ -246,6 +249,7 @@ func libBinaryWrite(g *FuncGen, c *ast.CallExpr, callee *types.Func, st *State) 
 	g.assume(st, fmt.Sprintf("(ite (= %s 0) (= %s (fsWrite %s (fpath %s) (bcat (content %s (fpath %s)) %s))) (= %s (fsWrite %s (fpath %s) %s)))",
 		err.T, nfs, fs, w.T, fs, w.T, data, nfs, fs, w.T, junk))
 	g.ghostSet(st, "$fs", nfs)
+	g.ioFailed(st, err.T)
 	return res
 }
 
@@ -283,6 +287,7 @@ func libMkdir(g *FuncGen, c *ast.CallExpr, callee *types.Func, st *State) []Val 
 	nfs := g.fresh("fs", "FS")
 	g.assume(st, fmt.Sprintf("(ite (= %s 0) (and (isAbsent %s %s) (= %s (fsMkdir %s %s))) (= %s %s))", err.T, fs, p.T, nfs, fs, p.T, nfs, fs))
 	g.ghostSet(st, "$fs", nfs)
+	g.ioFailed(st, err.T)
 	return res
 }
 
@@ -297,6 +302,7 @@ func libMkdirAll(g *FuncGen, c *ast.CallExpr, callee *types.Func, st *State) []V
 	g.assume(st, fmt.Sprintf("(forall ((q Bytes)) (! (and (=> (not (isAbsent %s q)) (= (select %s q) (select %s q))) (=> (not (= (select %s q) (select %s q))) (isDir %s q))) :pattern ((select %s q))))", fs, nfs, fs, nfs, fs, nfs, nfs))
 	g.assume(st, fmt.Sprintf("(=> (= %s 0) (isDir %s %s))", err.T, nfs, p.T))
 	g.ghostSet(st, "$fs", nfs)
+	g.ioFailed(st, err.T)
 	return res
 }
 
@@ -308,6 +314,7 @@ func libRemove(g *FuncGen, c *ast.CallExpr, callee *types.Func, st *State) []Val
 	nfs := g.fresh("fs", "FS")
 	g.assume(st, fmt.Sprintf("(ite (= %s 0) (and (not (isAbsent %s %s)) (= %s (fsRemove %s %s))) (= %s %s))", err.T, fs, p.T, nfs, fs, p.T, nfs, fs))
 	g.ghostSet(st, "$fs", nfs)
+	g.ioFailed(st, err.T)
 	return res
 }
 
@@ -320,6 +327,7 @@ func libRename(g *FuncGen, c *ast.CallExpr, callee *types.Func, st *State) []Val
 	nfs := g.fresh("fs", "FS")
 	g.assume(st, fmt.Sprintf("(ite (= %s 0) (and (not (isAbsent %s %s)) (= %s (store (store %s %s fabsent) %s (select %s %s)))) (= %s %s))", err.T, fs, a.T, nfs, fs, a.T, b.T, fs, a.T, nfs, fs))
 	g.ghostSet(st, "$fs", nfs)
+	g.ioFailed(st, err.T)
 	return res
 }
 
